@@ -62,6 +62,8 @@ def main():
         W = "/tmp/wt/r8-%s" % pid  # round 8
     if any(m in ("m25", "m26", "m27") for m in ms):
         W = "/tmp/wt/r9-%s" % pid  # round 9
+    if any(m in ("m28", "m29", "m30") for m in ms):
+        W = "/tmp/wt/r10-%s" % pid  # round 10
     take_slot()
     for m in ms:
         out = os.path.join(W, "_out", m)
